@@ -319,7 +319,7 @@ fn merge_report(acc: &mut Map<String, Value>, part: &Value) {
         }
         acc.insert(key.into(), Value::Object(m));
     }
-    for (key, cap) in [("samples", 6usize), ("violations", 40), ("harness_errors", 20)] {
+    for (key, cap) in [("samples", 6usize), ("harness_errors", 20)] {
         let mut a = acc[key].as_array().cloned().unwrap_or_default();
         for v in part[key].as_array().into_iter().flatten() {
             if a.len() < cap {
@@ -327,6 +327,23 @@ fn merge_report(acc: &mut Map<String, Value>, part: &Value) {
             }
         }
         acc.insert(key.into(), Value::Array(a));
+    }
+    // violation records: a few per signature, so that one that fires thousands of times (a known
+    // finding) cannot crowd out the record of another
+    {
+        let mut a = acc["violations"].as_array().cloned().unwrap_or_default();
+        let mut per: std::collections::HashMap<String, usize> = std::collections::HashMap::new();
+        for v in &a {
+            *per.entry(v["sig"].as_str().unwrap_or("").to_string()).or_insert(0) += 1;
+        }
+        for v in part["violations"].as_array().into_iter().flatten() {
+            let n = per.entry(v["sig"].as_str().unwrap_or("").to_string()).or_insert(0);
+            if *n < 3 && a.len() < 600 {
+                *n += 1;
+                a.push(v.clone());
+            }
+        }
+        acc.insert("violations".into(), Value::Array(a));
     }
     let mut ex = acc["extra"].as_object().cloned().unwrap_or_default();
     for (k, v) in part["extra"].as_object().into_iter().flatten() {
